@@ -623,7 +623,7 @@ void linearCase(Ctx& c, vh::Rng& g) {
     }
     if (!made) return;
     finishTopology(M, g, false);
-    randomState(M, g);
+    randomState(M, g, 1.0, g.coin() ? 1.0 : 4.0);     // larger speeds make projectU's relative scale |u| (instead of 1/Wu) active
     State& s = M.state;
     std::vector<std::pair<int, double>> lockedQ;
     if (g.below(3) == 0 && M.nb() > 2) {
